@@ -98,6 +98,12 @@ func c13Run(c c13Case, res *WRes) {
 			ro = signJWT([]byte("secret-V"), "HS256", "", claims, nil)
 		case "hs256-public-key":
 			ro = signJWT([]byte("rk"), "HS256", "rk", claims, nil)
+		case "rs256-expired":
+			claims["exp"] = w.Now().Add(-time.Hour).Unix()
+			ro = signJWT(rsaKey("rsa1"), "RS256", "rk", claims, nil)
+		case "rs256-not-yet-valid":
+			claims["nbf"] = w.Now().Add(time.Hour).Unix()
+			ro = signJWT(rsaKey("rsa1"), "RS256", "rk", claims, nil)
 		case "rs256-tampered":
 			t := signJWT(rsaKey("rsa1"), "RS256", "rk", claims, nil)
 			p := strings.Split(t, ".")
@@ -191,6 +197,12 @@ func c13Run(c c13Case, res *WRes) {
 		if got := o.Param("state"); got != c.State {
 			viol("C13/state-not-echoed/"+map[bool]string{true: "success", false: "error"}[accepted], fmt.Sprintf("the redirect carries state %q, the request sent %q", got, c.State), c.State, o.Location)
 		}
+	}
+	if !accepted && c.RO != "" && (o.Err == "error" || o.Status >= 500) {
+		// a request object that cannot be honoured is a client error with an OAuth 2.0 error code, never the
+		// fallback {"error":"error"} / HTTP 500 of a raw Go error
+		viol("C13/request-object-refused-with-malformed-error/"+c.RO, fmt.Sprintf("a request object (%s) is refused with HTTP %d, error code %q: not an OAuth 2.0 error response", c.RO, o.Status, o.Err), "invalid_request_object (or another OAuth 2.0 error)", o.Body+o.Location)
+		return
 	}
 	if !accepted {
 		return
@@ -520,7 +532,7 @@ func c13Cases(group string) []c13Case {
 			}
 		}
 	case "G5-request-objects":
-		for _, ro := range []string{"rs256-registered", "es256-registered", "ps256-registered", "rs256-other-key", "rs256-unknown-kid", "es256-other-key", "none", "hs256-client-secret", "hs256-public-key", "rs256-tampered", "uri-registered", "uri-unregistered", "uri-fetch-fails", "both", "uri-case-variant", "uri-trailing-slash", "uri-with-query"} {
+		for _, ro := range []string{"rs256-registered", "es256-registered", "ps256-registered", "rs256-other-key", "rs256-unknown-kid", "es256-other-key", "none", "hs256-client-secret", "hs256-public-key", "rs256-tampered", "uri-registered", "uri-unregistered", "uri-fetch-fails", "both", "uri-case-variant", "uri-trailing-slash", "uri-with-query", "rs256-expired", "rs256-not-yet-valid"} {
 			for _, alg := range []string{"", "RS256", "ES256", "PS256", "none", "HS256"} {
 				for _, rt := range []string{"code", "code id_token", "id_token"} {
 					for _, sc := range []string{"openid a", "a"} {
